@@ -213,4 +213,18 @@ func regress(c *hc.Ctx) {
 	run("shape:Grid-cell-position", "Grid(10,10,2,2,1)", func() string {
 		return want(canvas.Grid(10, 10, 2, 2, 1), "M0 0L10 0L10 10L0 10zM1 1L1 4.5L4.5 4.5L4.5 1zM5.5 1L5.5 4.5L9 4.5L9 1zM1 5.5L1 9L4.5 9L4.5 5.5zM5.5 5.5L5.5 9L9 9L9 5.5z")
 	})
+	// 0cf6beb: windings() indexed past the intersection list (open end point, unpaired vertex hit, Filling)
+	run("panic:Windings:level-with-open-endpoint", "M0 0L10 10L10 0 .Windings(5,0)", func() string { P("M0 0L10 10L10 0").Windings(5, 0); return "" })
+	run("panic:Contains:level-with-open-endpoint", "M0 0L10 10L10 0 .Contains(5,0)", func() string {
+		P("M0 0L10 10L10 0").Contains(5, 0, canvas.EvenOdd)
+		return ""
+	})
+	run("panic:Windings:level-with-vertex", "M0 0L15.924 -1.003C3 1 5 1 2 1z .Windings(1,1)", func() string {
+		P("M0 0L15.924 -1.003C3 1 5 1 2 1z").Windings(1, 1)
+		return ""
+	})
+	run("panic:Filling:index-out-of-range", "M0 0Q-1 1 -3 -8.152zM1 -3L4 6C-1 1 2 0 2 0 .Filling", func() string {
+		P("M0 0Q-1 1 -3 -8.152zM1 -3L4 6C-1 1 2 0 2 0").Filling(canvas.NonZero)
+		return ""
+	})
 }
